@@ -95,8 +95,10 @@ def main(argv=None):
 
 def serves(prop, props, unit):
     """an obligation counts for the property it is tagged with; in a unit that serves C15, an obligation about what the emitted code computes (C01)
-    counts for C15 as well: a construct translated wrongly differs from its rewritten form translated rightly"""
-    return prop in props or (prop == "C15" and "C01" in props and "C15" in unit.props)
+    counts for C15 as well: a construct translated wrongly differs from its rewritten form translated rightly; so does an obligation about the optimizer
+    leaving the computation alone (C02): the final state C15 speaks of is that of the code after optimization, and one of two equivalent forms may be
+    the only one a wrong rule fires on"""
+    return prop in props or (prop == "C15" and ("C01" in props or "C02" in props) and "C15" in unit.props)
 
 
 def verdict(prop, tier, seed, mods, results, wall, write=True, mres=None, scratch=None):
